@@ -27,6 +27,7 @@ type cInput struct {
 	Otu   bool       `json:"otu"`
 	Proxy cProxy     `json:"proxy"`
 	Win   string     `json:"win"`
+	Authn bool       `json:"authn"`
 }
 type cCfg struct {
 	Aud string `json:"aud"`
@@ -51,7 +52,7 @@ func (Cond) Cap(tier string) int {
 	if tier == "thorough" {
 		return 60000
 	}
-	return 0
+	return 16000
 }
 func (Cond) Layouts(tier string) int         { return 1 }
 func (Cond) Extra(string, int64) []orch.Case { return nil }
@@ -59,6 +60,19 @@ func (Cond) Extra(string, int64) []orch.Case { return nil }
 var audTok = map[string]string{
 	"match": world.Audience, "case": strings.ToUpper(world.Audience[:20]) + world.Audience[20:], "slash": world.Audience + "/",
 	"ws": " " + world.Audience + " ", "other": "https://other.example/audience", "emptyaud": "",
+}
+
+// cfgAudience is the configured AudienceURI of a configuration kind.
+func cfgAudience(kind string) string {
+	switch kind {
+	case "empty":
+		return ""
+	case "padded": // legal, if unwise: the comparison is exact, so only an identically padded Audience matches
+		return "\t" + world.Audience + " "
+	case "space":
+		return " "
+	}
+	return world.Audience
 }
 
 func tokOfAud(s string) string {
@@ -86,7 +100,11 @@ func (Cond) Run(c *orch.Case) *orch.Outcome {
 	for _, ar := range in.Ars {
 		var vs []string
 		for _, t := range ar {
-			vs = append(vs, audTok[t])
+			if t == "match" && cfg.Aud != "empty" {
+				vs = append(vs, cfgAudience(cfg.Aud)) // "match" is byte-identical to what is configured
+			} else {
+				vs = append(vs, audTok[t])
+			}
 		}
 		if vs == nil {
 			vs = []string{}
@@ -94,6 +112,9 @@ func (Cond) Run(c *orch.Case) *orch.Outcome {
 		spec.Conditions.AudRestr = append(spec.Conditions.AudRestr, vs)
 	}
 	spec.Conditions.OneTimeUse = in.Otu
+	if !in.Authn {
+		spec.Authn = nil // an assertion without an AuthnStatement is legal; the warnings do not depend on it
+	}
 	switch in.Win { // the subject confirmation stays valid: only the Conditions window moves
 	case "before":
 		spec.Conditions.NotBefore = idp.S(world.RFC(world.Now.Add(time.Minute)))
@@ -146,9 +167,7 @@ func (Cond) Run(c *orch.Case) *orch.Outcome {
 	enc := idp.Encode(doc, c.Seed%3 == 0)
 	sp := spFor(c.Seed/4, "cond"+cfg.Aud, func() *saml2.SAMLServiceProvider {
 		sp := w.NewSP()
-		if cfg.Aud == "empty" {
-			sp.AudienceURI = ""
-		}
+		sp.AudienceURI = cfgAudience(cfg.Aud)
 		return sp
 	})
 	o := &cObs{Proxy: cProxyObs{Aud: []string{}}}
